@@ -62,7 +62,9 @@ def world():
         return z3.And(*c)
 
     w.update(iso_value=iso_value, iso_fields_ok=iso_fields_ok, micros=lambda td: zint(td.us),
-             zabs=lambda x: z3.If(zreal(x) >= 0, zreal(x), -zreal(x)))
+             zabs=lambda x: z3.If(zreal(x) >= 0, zreal(x), -zreal(x)),
+             zmax=lambda a, b: z3.If(zint(a) >= zint(b), zint(a), zint(b)),
+             zmin=lambda a, b: z3.If(zint(a) <= zint(b), zint(a), zint(b)))
     w['__bases__'] = {}
     w['delta'], w['delta_norm'] = TD.decomposed('delta')
     return w
@@ -94,7 +96,7 @@ TO_ISO_DURATION = Contract(
 TO_ISO_DURATION_TD = Contract(
     key=f'{DTF}:toIsoDuration', props=['C19'],
     env=lambda w: {'secs': w['delta']},
-    requires=[('nonneg', 'micros(secs) >= 0'), ('td_normalised', 'delta_norm')],
+    requires=[('nonneg', 'micros(secs) >= 0')], defs=['delta_norm'],
     loops={0: Loop(invariant=[], variant=[], unroll=5)},
     ensures=[('fields', 'iso_fields_ok(result)'),
              ('value', 'zabs(iso_value(result) * 1000000 - micros(old(secs))) * 2000 <= 1000000')],
@@ -115,7 +117,7 @@ TIMECODE_TO_TIMEDELTA = Contract(
 TIMEDELTA_TO_TIMECODE = Contract(
     key=f'{DTF}:timedelta_to_timecode', props=['C19', 'C01', 'C09'],
     env=lambda w: {'delta': w['delta'], 'timescale': z3.Int('timescale')},
-    requires=[('ts_pos', 'timescale >= 1'), ('td_normalised', 'delta_norm')],
+    requires=[('ts_pos', 'timescale >= 1')], defs=['delta_norm'],
     ensures=[('exact', 'result == (timescale * micros(delta)) // 1000000')],
     result=lambda eng, frame: fresh('timecode'),
     canaries=['result * 1000000 == timescale * micros(delta)'],
@@ -125,7 +127,7 @@ TIMEDELTA_TO_TIMECODE = Contract(
 MULTIPLY_TIMEDELTA = Contract(
     key=f'{DTF}:multiply_timedelta', props=['C19'],
     env=lambda w: {'delta': w['delta'], 'num': z3.Int('num')},
-    requires=[('td_normalised', 'delta_norm')],
+    requires=[], defs=['delta_norm'],
     ensures=[('exact', 'result == (num * micros(delta)) // 1000000')],
     result=lambda eng, frame: fresh('secs'),
     canaries=['result * 1000000 == num * micros(delta)'],
@@ -135,7 +137,7 @@ MULTIPLY_TIMEDELTA = Contract(
 SCALE_TIMEDELTA = Contract(
     key=f'{DTF}:scale_timedelta', props=['C19', 'C01'],
     env=lambda w: {'delta': w['delta'], 'num': z3.Int('num'), 'denom': z3.Int('denom')},
-    requires=[('denom_pos', 'denom >= 1'), ('td_normalised', 'delta_norm')],
+    requires=[('denom_pos', 'denom >= 1')], defs=['delta_norm'],
     ensures=[('exact', 'result * denom == (num * micros(delta)) // 1000000')],
     result=lambda eng, frame: fresh('scaled', REAL),
     canaries=['result * denom * 1000000 == num * micros(delta)'],
